@@ -511,6 +511,7 @@ func runProp(prop string) int {
 
 	// 7. report
 	violations := 0
+	solverErrors := 0
 	discharged := 0
 	var oblReports []map[string]any
 	var samples []any
@@ -547,6 +548,12 @@ func runProp(prop string) int {
 					oblReports = append(oblReports, rep)
 					continue
 				}
+			}
+			if o.Res.Result == "error" {
+				fmt.Printf("BROKEN-CHECK every solver rejected the query of %s: %s\n", name, truncate(strings.TrimSpace(o.Res.Output), 300))
+				solverErrors++
+				oblReports = append(oblReports, rep)
+				continue
 			}
 			violations++
 			rp := handleFailure(P, prop, cfg, o, rr.ctxOf[o])
@@ -641,6 +648,9 @@ func runProp(prop string) int {
 		os.WriteFile(filepath.Join(*flagVerif, "evidence", prop+".json"), b, 0o644)
 	}
 	fmt.Printf("property %s: %d obligations, %d discharged, %d known findings, %d violations, %d functions, %.1fs\n", prop, total, discharged, len(knownHit), violations, len(rr.funcs), time.Since(t0).Seconds())
+	if solverErrors > 0 && violations == 0 {
+		return 2
+	}
 	if violations > 0 {
 		return 1
 	}
